@@ -140,7 +140,8 @@ class Spec(object):
         return "choice_of_2" in res.flags and "service_started" in res.flags
 
     def families(self, tier):
-        return focused(tier)
+        from .. import universal
+        return focused(tier) + universal.subset(tier, ["prio", "LIFO", "SIRO", "cct", "preempt"], exclude=["sched_re", "slotted_cap_re"], watch_discipline=True)
 
 
 def focused(tier):
